@@ -30,6 +30,28 @@ CHILD = (
 )
 
 
+CHILD_LEX = (
+    "import sys\n"
+    "sys.path.insert(0, sys.argv[1])\n"
+    "from pycparser.c_lexer import CLexer\n"
+    "src = open(sys.argv[2], newline='').read()\n"
+    "stop = sys.argv[3] == '1'\n"
+    "class E(Exception):\n"
+    "    pass\n"
+    "def err(m, l, c):\n"
+    "    if stop:\n"
+    "        raise E()\n"
+    "lx = CLexer(err, lambda: None, lambda: None, lambda n: False)\n"
+    "lx.input(src)\n"
+    "try:\n"
+    "    for _ in range(len(src) + 3):\n"
+    "        if lx.token() is None:\n"
+    "            break\n"
+    "except E:\n"
+    "    pass\n"
+)
+
+
 def available():
     return shutil.which("valgrind") is not None
 
@@ -38,24 +60,25 @@ class Unavailable(Exception):
     pass
 
 
-def instructions(text, repo=None, timeout=900):
+def instructions(text, repo=None, timeout=900, mode="parse", stop_at_error=False):
     """-> number of instructions executed by a fresh interpreter that imports
-    pycparser and parses `text`; raises Unavailable if that cannot be measured"""
+    pycparser and parses `text` (mode 'lex': runs a bare CLexer over it, up to the
+    first error report if stop_at_error); raises Unavailable if that cannot be measured"""
     repo = repo or os.environ.get("PYCPARSER_REPO", "/repo")
     if not available():
         raise Unavailable("valgrind not found")
     d = tempfile.mkdtemp(prefix="ic_")
     try:
         src = os.path.join(d, "t.c")
-        with open(src, "w") as f:
+        with open(src, "w", newline="") as f:
             f.write(text)
         child = os.path.join(d, "child.py")
         with open(child, "w") as f:
-            f.write(CHILD)
+            f.write(CHILD if mode == "parse" else CHILD_LEX)
         env = dict(os.environ, PYTHONHASHSEED="0", PYTHONDONTWRITEBYTECODE="1")
         env.pop("PYTHONPATH", None)
         try:
-            p = subprocess.run(["valgrind", "--tool=cachegrind", "--cache-sim=no", "--cachegrind-out-file=/dev/null", sys.executable, "-S", child, repo, src],
+            p = subprocess.run(["valgrind", "--tool=cachegrind", "--cache-sim=no", "--cachegrind-out-file=/dev/null", sys.executable, "-S", child, repo, src] + (["1" if stop_at_error else "0"] if mode != "parse" else []),
                                capture_output=True, text=True, env=env, timeout=timeout, cwd=d)  # fmt: skip
         except subprocess.TimeoutExpired:
             raise Unavailable("valgrind run exceeded %d s" % timeout)
@@ -70,8 +93,8 @@ def instructions(text, repo=None, timeout=900):
 _base = {}
 
 
-def baseline(repo=None):
+def baseline(repo=None, mode="parse"):
     repo = repo or os.environ.get("PYCPARSER_REPO", "/repo")
-    if repo not in _base:
-        _base[repo] = instructions("int x;", repo)
-    return _base[repo]
+    if (repo, mode) not in _base:
+        _base[(repo, mode)] = instructions("int x;", repo, mode=mode)
+    return _base[(repo, mode)]
